@@ -290,23 +290,24 @@ impl DBInner {
 
         macro_rules! check_meta {
             ($func:ident) => {{
-                let meta1 = Page::from_buf(&data, 0, self.pagesize).$func();
+                // A meta page that is not marked as one or fails its checksum is damaged:
+                // it is ignored so that we can fall back to the other meta page.
+                let meta1 = Page::from_buf(&data, 0, self.pagesize)
+                    .$func()
+                    .filter(|m| m.valid());
                 // Double check that we have the right pagesize before we read the second page.
-                if meta1.valid() && meta1.pagesize != self.pagesize {
+                if let Some(meta1) = meta1 {
                     assert_eq!(
                         meta1.pagesize, self.pagesize,
                         "Invalid pagesize from meta1 {}. Expected {}.",
                         meta1.pagesize, self.pagesize
                     );
                 }
-                let meta2 = Page::from_buf(&data, 1, self.pagesize).$func();
-                match (meta1.valid(), meta2.valid()) {
-                    (true, true) => {
-                        assert_eq!(
-                            meta1.pagesize, self.pagesize,
-                            "Invalid pagesize from meta1 {}. Expected {}.",
-                            meta1.pagesize, self.pagesize
-                        );
+                let meta2 = Page::from_buf(&data, 1, self.pagesize)
+                    .$func()
+                    .filter(|m| m.valid());
+                match (meta1, meta2) {
+                    (Some(meta1), Some(meta2)) => {
                         assert_eq!(
                             meta2.pagesize, self.pagesize,
                             "Invalid pagesize from meta2 {}. Expected {}.",
@@ -318,15 +319,8 @@ impl DBInner {
                             Some(meta2)
                         }
                     }
-                    (true, false) => {
-                        assert_eq!(
-                            meta1.pagesize, self.pagesize,
-                            "Invalid pagesize from meta1 {}. Expected {}.",
-                            meta1.pagesize, self.pagesize
-                        );
-                        Some(meta1)
-                    }
-                    (false, true) => {
+                    (Some(meta1), None) => Some(meta1),
+                    (None, Some(meta2)) => {
                         assert_eq!(
                             meta2.pagesize, self.pagesize,
                             "Invalid pagesize from meta2 {}. Expected {}.",
@@ -334,14 +328,14 @@ impl DBInner {
                         );
                         Some(meta2)
                     }
-                    (false, false) => None,
+                    (None, None) => None,
                 }
             }};
         }
 
-        if let Some(meta) = check_meta!(meta) {
+        if let Some(meta) = check_meta!(try_meta) {
             Ok(meta.clone())
-        } else if let Some(old_meta) = check_meta!(old_meta) {
+        } else if let Some(old_meta) = check_meta!(try_old_meta) {
             Ok(old_meta.into())
         } else {
             panic!("NO VALID META PAGES");
